@@ -13,7 +13,7 @@ COQ_EXTRA = ['theories/Generated/K_gfx_selftest.vo', 'theories/Generated/K_gff_s
 MODEL = ('ExC17', ['c17_ops.ml', 'c17_main.ml'])
 MONITOR = ('MonC17', ['c17_ops.ml', 'c17_mon_main.ml'])
 SIZES = [8192, 4096, 256, 256, 4352]
-RULE = ('case = initial contents of the five regions + a history of 1-80 accessor calls (all 19 accessors, incl. Map.get_rect_pixels: x 0/126/127, rows 0/30/31/32/62/63, rectangles touching / crossing the right edge by 0, 1, many and reaching the bottom edge, maps holding tile ids 0, 1, 255), arguments '
+RULE = ('case = initial contents of the five regions + a history of 1-80 accessor calls (all 19 accessors, incl. Map.get_rect_pixels: x 0/126/127, rows 0/30/31/32/62/63, rectangles touching / crossing the right edge by 0, 1, many and reaching the bottom edge, maps holding tile ids 0, 1, 255; set_rect_tiles blocks of 127 / 128 / 129 tiles per row at x 0 / 1 crossing rows 31/32, reaching the bottom edge and covering the whole map), arguments '
         'concentrated on the edges (crossing the right/bottom edge by 0, 1, many cells; ids at 0/15/16/240/255; TRANSPARENT '
         'pixels; ragged rows; blocks of 140 rows or columns, offsets up to 1000; None fields); implementation run on a real Game object, every returned value and the whole '
         'memory after the history compared with the extracted model (correspondence) and with Spec/PlainMem.v through '
@@ -272,6 +272,17 @@ def corpus_cases():
     yield {'hasgfx': 1, 'mem': z, 'ops': ['ss,0,0,0,0102030405060708/0807060504030201', 'ss,1,0,0,0f0e0d0c0b0a0908',
                                          'ss,255,7,7,0a', 'msr,126,31,0001ff/ff0100', 'mgp,126,31,3,2', 'mgp,0,0,1,1',
                                          'mgp,127,63,1,1', 'mgp,0,0,1,64']}
+    # full-width blocks (rows of 127 / 128 / 129 tiles) that start in the upper half and cross rows 31/32, reach the
+    # bottom edge, or cover the whole map (the "transform the whole map" use: a bulk path is a plausible rewrite); read
+    # back cell by cell on both sides of the border and as one rectangle (round s11)
+    def _wide(w, h, k):
+        return '/'.join(lib.hx(bytes(((r * 37 + c * 3 + k) % 255) + 1 for c in range(w))) for r in range(h))
+    for x, w in [(0, 128), (0, 127), (0, 129), (1, 127), (1, 128)]:
+        for y, h in [(30, 4), (31, 2), (29, 3), (0, 33), (62, 3)]:
+            yield {'hasgfx': 1, 'mem': z, 'ops': ['msr,%d,%d,%s' % (x, y, _wide(w, h, x + y)), 'mgc,0,31', 'mgc,0,32',
+                                                 'mgc,127,31', 'mgc,127,32', 'mgc,1,33', 'mgc,126,63',
+                                                 'mgr,0,%d,128,%d' % (y, min(h + 1, 64 - y)), 'mgr,120,28,8,8']}
+    yield {'hasgfx': 1, 'mem': z, 'ops': ['msr,0,0,%s' % _wide(128, 64, 5), 'mgr,0,0,128,64', 'gs,0,16,16', 'mgc,5,40']}
 
 
 def _fmt(v):
